@@ -21,7 +21,10 @@ from matsim.worlds import seed_strategy, CRYSTAL_STRATS
 def classes():
     out = []
     for name in gens.MATERIALS:
-        conv, st = gens.conv_cell(name)
+        try:
+            conv, st = gens.conv_cell(name)
+        except Exception:
+            continue
         out.append((name, "bulk", (0, 0, 0), 0, True))
         millers = [(0, 0, 1)] if st in ("hcp", "wurtzite") else gens.MILLERS
         for m in millers:
